@@ -14,6 +14,7 @@ import DsdVerif.Gen.PyFuncs
 import DsdVerif.Gen.PyIupac
 import DsdVerif.Spec.PyComplexS
 import DsdVerif.DriverKernel
+import DsdVerif.DriverIdent
 import DsdVerif.DriverLegacy
 import DsdVerif.Model.Dlc
 
@@ -629,7 +630,7 @@ def stepD (d : DState) (line : String) : DState × String :=
       | none => (d, "err Fault dead-handle")
     | none => (d, "bad-op")
   | _ =>
-    match DriverKernel.stepKernel line with
+    match (DriverKernel.stepKernel line).orElse (fun _ => DriverIdent.stepIdent line) with
     | some out => (d, out)
     | none =>
       match DriverLegacy.stepLegacy d.lg line with
